@@ -46,3 +46,15 @@ Lemma repaired_survives_sync_run :
   let f := fe_construct (Some 0) 0 64 (repeat 0 64) in
   exists f', fe_on_data f w2_stream = Ok (f', 0, []).
 Proof. eexists. vm_compute. reflexivity. Qed.
+
+Lemma legacy_no_oob_refuted :
+  (exists user cap mem stream, N.of_nat (length mem) = cap /\ 24 <= cap /\
+     exists i n, fe_legacy_on_data (fe_legacy_construct (Some user) 0 cap mem) stream = OobWrite i n) /\
+  (let f := fe_legacy_construct (Some 0) 0 64 (repeat 0 64) in
+   c_cap (f_core f) = 64 /\ fe_legacy_on_data f w2_stream = OobWrite 64 64).
+Proof.
+  split.
+  - exists 1, 24, (repeat 0 24), w1_header. split; [reflexivity|]. split; [discriminate|].
+    exists 21, 21. exact (proj2 (proj2 legacy_oob_after_alignment)).
+  - exact legacy_oob_after_sync_run.
+Qed.
